@@ -1127,10 +1127,17 @@ func (g *g) heredoc(n string) string {
 	}
 	nl := []int{1, 2, 0, 3, 4}[g.ch.Intn(5, "hd_lines")]
 	for i := 0; i < nl; i++ {
-		k := g.ch.Intn(15, "hd_line")
+		k := g.ch.Intn(16, "hd_line")
 		line := ""
 		if k == 14 && h.Quoted {
 			k = 0
+		}
+		if k == 15 {
+			// a double quote is not special in a here-document: the backslash
+			// in front of it stays (whether the delimiter was quoted or not)
+			lit += `a\"b \'c` + "\n"
+			body.WriteString(`a\"b \'c` + "\n")
+			continue
 		}
 		switch k {
 		default:
